@@ -86,7 +86,32 @@ DynImage(cl, m, tag, val) ==
 StrTags == {"DT_NEEDED", "DT_SONAME", "DT_RPATH", "DT_RUNPATH", "DT_AUXILIARY", "DT_FILTER", "DT_CONFIG", "DT_DEPAUDIT", "DT_AUDIT",
             "DT_SUNW_AUXILIARY", "DT_SUNW_FILTER"}
 
+\* one relocation of the swept type against no symbol, in a .rel/.rela section over .text (ET_REL)
+RelImage(cl, m, rela, typ) ==
+  LET cls == cl[1]
+      info == IF cls = 32 THEN N(typ) ELSE N(typ)                       \* symbol index 0: r_info = type (both classes)
+      ent == IF rela THEN Ser(RelaF, [r_offset |-> N(16), r_info |-> info, r_addend |-> N(5)], cls, cl[2])
+             ELSE Ser(RelF, [r_offset |-> N(16), r_info |-> info], cls, cl[2])
+      strtab == <<0>>
+      syms == Rep(0, SymSize(cls))
+      b == [Base(cl, m) EXCEPT !.etype = N(1), !.segs = <<>>]
+      rname == IF rela THEN Dot(<<114, 101, 108, 97, 46, 116, 101, 120, 116>>) ELSE Dot(<<114, 101, 108, 46, 116, 101, 120, 116>>)
+  IN [b EXCEPT !.secs = <<[TextSec(cls) EXCEPT !.data = Rep(144, 32), !.size = N(32)],
+                          Sec(Dot(<<115, 116, 114, 116, 97, 98>>), N(3), Z, Z, strtab, N(1), Z, Z, N(1), Z),
+                          Sec(Dot(<<115, 121, 109, 116, 97, 98>>), N(2), Z, Z, syms, N(Len(syms)), N(2), N(1), N(8), N(SymSize(cls))),
+                          Sec(rname, N(IF rela THEN 4 ELSE 9), N(64), Z, ent, N(Len(ent)), N(3), N(1), N(cls \div 8), N(Len(ent)))>>]
+\* machine -> <<vocabulary key, class/order, RELA?>> (psABI: REL on i386/ARM/MIPS o32, RELA elsewhere)
+RelMachines == << <<"EM_386", "RELOC_386", <<32, TRUE>>, FALSE>>, <<"EM_X86_64", "RELOC_X64", <<64, TRUE>>, TRUE>>,
+                  <<"EM_ARM", "RELOC_ARM", <<32, TRUE>>, FALSE>>, <<"EM_AARCH64", "RELOC_AARCH64", <<64, TRUE>>, TRUE>>,
+                  <<"EM_PPC64", "RELOC_PPC64", <<64, FALSE>>, TRUE>>, <<"EM_PPC", "RELOC_PPC", <<32, FALSE>>, TRUE>>,
+                  <<"EM_S390", "RELOC_S390", <<64, FALSE>>, TRUE>>, <<"EM_MIPS", "RELOC_MIPS", <<32, TRUE>>, FALSE>>,
+                  <<"EM_LOONGARCH", "RELOC_LARCH", <<64, TRUE>>, TRUE>> >>
+
 Items ==
+  \* ---- option -r: every relocation type name the clone has, under its machine
+  UNION {{[tag |-> "r_type", name |-> n, opt |-> "-r", im |-> RelImage(RelMachines[i][3], Code(RelMachines[i][1]), RelMachines[i][4], Small2(Reg[n]))] :
+            n \in V(RelMachines[i][2])} : i \in 1..Len(RelMachines)}
+  \cup
   \* ---- option -h
   {[tag |-> "e_machine", name |-> n, opt |-> "-e", im |-> Base(IF Small2(Reg[n]) \in {Code("EM_ARM"), Code("EM_MIPS")} THEN <<32, TRUE>> ELSE <<64, TRUE>>, Small2(Reg[n]))] : n \in V("EM")}
   \cup {[tag |-> "ei_osabi", name |-> n, opt |-> "-e", im |-> [Base(<<32, TRUE>>, 3) EXCEPT !.osabi = Small2(Reg[n])]] :
